@@ -44,3 +44,7 @@ def run(ctx, res):
     import textrules
     textrules.rule_utf8_writers(prog, res)
     panics.check_residue_support(inv, res)
+    if ctx.tier == "thorough":
+        import crosscfg
+        crosscfg.rule_same_as_default_build(ctx, res, cl, "C09 closure")
+        crosscfg.rule_optimised_subset(ctx, res, cl, "C09 closure")
